@@ -238,6 +238,78 @@ pub fn contiguous_case(out: &mut Out, e: u8, perm: &[usize], kind: &str) {
     out.count_n("ops", perm.len() as u64);
 }
 
+/// A long stream (indices 0..n, sequence numbers wrapping) delivered in the order `order`, whose
+/// outstanding window stays below 256. Oracle (C05 promptness at component level): after each
+/// arrival and drain, everything whose predecessors have all arrived has been released.
+pub fn window_case(out: &mut Out, e: u8, order: &[usize], kind: &str) {
+    let mut sess = Session::new();
+    begin(&mut sess, out);
+    out.set_desc(format!(
+        "window {} {}",
+        e,
+        order.iter().map(|x| x.to_string()).collect::<Vec<_>>().join(",")
+    ));
+    op(&mut sess, out, &format!("reseq S {}", e));
+    let mut arrived = vec![false; order.len() + 1];
+    let mut mex = 0usize;
+    let mut reported = false;
+    for &i in order {
+        let seq = e.wrapping_add((i % 256) as u8);
+        op(&mut sess, out, &format!("reseq P {} {}", seq, 1000 + i));
+        sess.drain_all(out);
+        arrived[i] = true;
+        while arrived[mex] {
+            mex += 1;
+        }
+        if sess.released.len() != mex && !reported {
+            reported = true;
+            out.fail(
+                "C05:prompt-release",
+                if mex >= 255 { "window-past-wrap" } else { "window" },
+                format!(
+                    "after arrival of index {} all of 0..{} have arrived but only {} released (e={})",
+                    i,
+                    mex,
+                    sess.released.len(),
+                    e
+                ),
+            );
+        }
+    }
+    let want: Vec<u32> = (0..order.len() as u32).map(|i| 1000 + i).collect();
+    if sess.released != want && !reported {
+        out.fail("C05:prompt-release", "final", format!("e={} released {} of {}", e, sess.released.len(), order.len()));
+    }
+    out.nontrivial();
+    out.count(&format!("window:{}", kind));
+}
+
+/// the pattern 2,4,1,6,3,8,5,…: displacement <= 3 and the buffer never empties
+fn zigzag(n: usize) -> Vec<usize> {
+    let mut v = vec![];
+    let mut k = 1;
+    v.push(1);
+    while v.len() < n {
+        k += 2;
+        if k < n {
+            v.push(k);
+        }
+        v.push(k - 3);
+        if k >= n + 3 {
+            break;
+        }
+    }
+    // repair into a permutation of 0..n preserving relative order
+    let mut seen = vec![false; n];
+    let mut r: Vec<usize> = v.into_iter().filter(|&x| x < n && !std::mem::replace(&mut seen[x], true)).collect();
+    for i in 0..n {
+        if !seen[i] {
+            r.push(i);
+        }
+    }
+    r
+}
+
 fn permutations(n: usize, f: &mut dyn FnMut(&[usize])) {
     fn rec(k: usize, a: &mut Vec<usize>, f: &mut dyn FnMut(&[usize])) {
         if k == a.len() {
@@ -345,7 +417,7 @@ fn random_soup(out: &mut Out, rng: &mut Rng, len: usize) {
     out.count("soup:random");
 }
 
-pub const RULE: &str = "cases = (a) every permutation of a contiguous run of length n<=Lp from every start 0..=255, drained after each arrival; (b) every op sequence of length <=Ls over {process(next-2..next+2), drain, reset, set_next(0|254|255)} from starts {0,1,254,255}; (c) random permutations of runs up to 256 long from random starts; (d) random op soups with duplicates, stale and far-ahead numbers. A case is non-trivial if it is a permuted (not sorted) run, or a soup with at least two process calls; distinct = distinct op-line sequences (hashed).";
+pub const RULE: &str = "cases = (a) every permutation of a contiguous run of length n<=Lp from every start 0..=255, drained after each arrival; (b) every op sequence of length <=Ls over {process(next-2..next+2), drain, reset, set_next(0|254|255)} from starts {0,1,254,255}; (c) random permutations of runs up to 256 long from random starts; (d) random op soups with duplicates, stale and far-ahead numbers; (e) long duplicate-free streams (260..2000 messages, sequence numbers wrapping) delivered with bounded displacement so that fewer than 256 numbers are outstanding, incl. the zig-zag order 2,4,1,6,3,8,5,… that never lets the buffer empty (promptness oracle). A case is non-trivial if it is a permuted (not sorted) run, or a soup with at least two process calls; distinct = distinct op-line sequences (hashed).";
 
 pub fn run(args: &Args, out: &mut Out) -> &'static str {
     let mut rng = Rng::new(args.seed);
@@ -391,6 +463,19 @@ pub fn run(args: &Args, out: &mut Out) -> &'static str {
         }
         contiguous_case(out, e, &p, "random");
     }
+    // (e) long streams with a sliding window (sequence numbers wrap several times)
+    for (k, e) in [0u8, 1, 200, 255].into_iter().enumerate() {
+        window_case(out, e, &zigzag(300 + 50 * k), "zigzag");
+    }
+    for _ in 0..(if args.thorough() { 400 } else { 40 }) {
+        let n = rng.range(260, if args.thorough() { 2000 } else { 700 }) as usize;
+        let d = rng.range(1, 40) as usize;
+        // sort by (index + random delay <= d): every message is displaced by at most d places
+        let mut keyed: Vec<(usize, usize)> = (0..n).map(|i| (i + rng.below(d as u64 + 1) as usize, i)).collect();
+        keyed.sort();
+        let p: Vec<usize> = keyed.into_iter().map(|x| x.1).collect();
+        window_case(out, rng.below(256) as u8, &p, "bounded-displacement");
+    }
     // (d)
     for _ in 0..nsoup {
         let len = rng.range(1, souplen as u64) as usize;
@@ -412,6 +497,19 @@ pub fn replay(desc: &str, lines: &[String], out: &mut Out) {
             .map(|x| x.parse().unwrap())
             .collect();
         contiguous_case(out, e, &perm, "replay");
+        return;
+    }
+    if let Some(rest) = desc.strip_prefix("window ") {
+        let mut it = rest.split(' ');
+        let e: u8 = it.next().unwrap().parse().unwrap();
+        let order: Vec<usize> = it
+            .next()
+            .unwrap_or("")
+            .split(',')
+            .filter(|x| !x.is_empty())
+            .map(|x| x.parse().unwrap())
+            .collect();
+        window_case(out, e, &order, "replay");
         return;
     }
     let mut sess = Session::new();
